@@ -81,8 +81,13 @@ def run(ctx):
     for i in range(150 if quick else 4000):
         coll = [make(rng) for _ in range(rng.randint(0, 6))]
         strs = ["".join(it) for it in coll]
+        if rng.random() < 0.3:
+            # a column of a data frame / numpy array: the elements are instances of a str subclass
+            strs = [env.StrSub(x) if rng.random() < 0.7 else x for x in strs]
+            ctx.count("collections_with_str_subclass_elements")
         want = set(t for it in coll for t in it if t != ".")
-        arg = rng.choice([lambda: strs, lambda: tuple(strs), lambda: iter(strs), lambda: (x for x in strs)])
+        arg = rng.choice([lambda: strs, lambda: tuple(strs), lambda: iter(strs), lambda: (x for x in strs), lambda: set(strs),
+                          lambda: dict.fromkeys(strs)])
         r = call_guard(lambda: sf.get_alphabet_from_selfies(arg()))
         ctx.count("collections")
         if r[0] != "ok" or r[1] != want or not isinstance(r[1], set):
